@@ -239,14 +239,12 @@ impl Rec {
         }
     }
 
-    /// a symbolic verdict table
+    /// a symbolic verdict table (loop-free: fifteen independent symbolic bits)
     pub fn any_table(&self) {
-        let t: [bool; 15] = kani::any();
-        let mut i = 0;
-        while i < 15 {
-            self.table[i].store(t[i] as u8, Relaxed);
-            i += 1;
+        macro_rules! set {
+            ($($i:literal)*) => {$( self.table[$i].store(kani::any::<bool>() as u8, Relaxed); )*};
         }
+        set!(0 1 2 3 4 5 6 7 8 9 10 11 12 13 14);
     }
 
     pub fn set_verdict(&self, rank: u8, class: usize, v: bool) {
